@@ -3,7 +3,7 @@
 props/c02.py kills the runs of the shared corpus.  Here, in worker processes (tools/sweeplib.py):
 
 * the corpus with VARIANTS scenarios per kind (other populations, messages of several stdio buffers - the new copy is then partly on
-  disk before fflush -, the first generated name taken, clutter; stdin deliveries of sizes around the read buffer);
+  disk before fflush -, the first generated name taken, sizes of one stdio buffer +-1; stdin deliveries of sizes around the read buffer);
 * the scenario families of the other checks: stdin deliveries of every kind and size (tools/c04stdin.py), the rewriting cases with
   messages of 60 bytes .. 300 KiB (tools/rewriteproc.py), sequences of exec / rewriting / moving actions over plain and MIME messages
   (tools/execseq.py), sequences of flag / flags / move / label actions (tools/c09flagseq.py).
@@ -212,7 +212,7 @@ def stage(rep, tools, sc):
     return {'scenarios': len(fam_jobs), 'kills': sum(f['kills'] for f in fam.values()), 'exhaustive': True, 'processes': pool.nproc, 'families': fam,
             'with_problems': nprob, 'correspondence_mismatches': len(corr),
             'rule': 'a SIGKILL before EVERY call of every scenario: the shared corpus with %d scenarios per kind (populations, messages of several '
-                    'stdio buffers, first generated name taken, clutter, stdin sizes around the read buffer), every stdin delivery kind x size, the '
+                    'stdio buffers, first generated name taken, messages of one stdio buffer +-1, stdin sizes around the read buffer), every stdin delivery kind x size, the '
                     'rewriting cases up to 300 KiB, %d sampled exec / rewrite / move sequences, %d sampled flag / flags / move / label sequences; '
                     'after every kill a complete copy of every message of the maildirs exists (original bytes, final bytes or a stage in between) '
                     'and the killed run is a prefix of a run of Model.mainP; every fault-free trace obeys fsync-before-unlink' % (
